@@ -199,6 +199,7 @@ class Interp:
         self.resolver = resolver
         self.two_variant_discr = set()
         self.field_bytes = {}
+        self.term_widths = {}
         self.discr_kind = {}
         self.in_widths = {}
         self.w = world
@@ -237,6 +238,17 @@ class Interp:
         out = []
         self._walk(ctx, 0, path, frozenset(), out)
         return out
+
+    def _array_len(self, ctx, tid):
+        if tid is None:
+            return None
+        try:
+            ty = ctx["cr"].ty(tid)
+            if ty.get("k") == "array" and ty.get("len") is not None and ctx["cr"].ty(ty["elem"])["s"] == "u8":
+                return ty["len"]
+        except Exception:
+            pass
+        return None
 
     def _static_width(self, cr, tid):
         ty = cr.ty(tid)
@@ -765,6 +777,11 @@ class Interp:
                     val = self.rvalue(ctx, path, st["rv"])
                     loc = self.place_loc(ctx, path, st["place"])
                     self.write(path, loc, val)
+                    if not st["place"]["p"] and isinstance(val, tuple) and val and val[0] in ("field", "param", "init", "okv", "call"):
+                        # a value stored in a local of type [u8; N] is N bytes wide (whatever opaque term it is)
+                        n_ = self._array_len(ctx, st["place"].get("ty"))
+                        if n_ is not None:
+                            self.term_widths.setdefault(val, n_)
                 elif st["k"] == "setdiscr":
                     pass
             t = blk["term"]
@@ -1286,9 +1303,15 @@ class Interp:
             if args[0] == ("int", 0) and args[1][0] == "int":
                 return ("vec", ("zeros", args[1][1]))
             return ("vec", ("repeat", args[0], args[1]))
-        if p == "alloc::vec::Vec::<T, A>::extend_from_slice":
+        ext_full = ce.get("full", "")
+        is_extend_bytes = (p == "core::iter::traits::collect::Extend::extend" and len(args) == 2
+                           and re.match(r"<alloc::vec::Vec<u8> as core::iter::traits::collect::Extend<(&(?:'\w+ )?)?u8>>::extend::<(&(?:'\w+ )?)?(\[u8; \d+\]|\[u8\]|alloc::vec::Vec<u8>)>$", ext_full))
+        if p == "alloc::vec::Vec::<T, A>::extend_from_slice" or is_extend_bytes:
+            # (Vec<u8> as Extend).extend(bytes) with a byte array / slice / Vec: appends exactly those bytes, in order
             loc = ("V", a0[1]) if is_ptr(a0) else None
             data = self.argval(path, args[1])
+            if isinstance(data, tuple) and data and data[0] == "vec":
+                data = data[1]
             if loc:
                 old = self.content(path, loc)
                 self.write(path, loc, concat(old, data))
@@ -1307,7 +1330,7 @@ class Interp:
                 if p.startswith("alloc::vec"):
                     loc = ("V", loc)
                 return ("len", self.content(path, loc))
-        if p == "alloc::vec::Vec::<T, A>::reserve":
+        if p in ("alloc::vec::Vec::<T, A>::reserve", "alloc::vec::Vec::<T, A>::reserve_exact"):
             self.event(path, "call", name, ce, args, site, blk, dest_ty, ctx)
             return ("unit",)
         if p == "alloc::boxed::Box::<T>::new":
